@@ -31,7 +31,7 @@ import (
 
 type c39Pub struct {
 	QoS    byte `json:"qos"`
-	Size   int  `json:"size"`           // payload size 0..5000
+	Size   int  `json:"size"`           // payload size 0..5000, sometimes 16-70 KB
 	Seed   byte `json:"seed"`           // payload content seed (position dependent content)
 	Suffix int  `json:"suffix"`         // topic c39/<id>/t<suffix>; an exact subscription only matches suffix 0
 	Prop   bool `json:"prop,omitempty"` // v5: attach a user property and a content type
@@ -1149,7 +1149,11 @@ func c39Gen(rt *rapid.T) c39Case {
 	np := rapid.IntRange(1, 6).Draw(rt, "npubs")
 	for i := 0; i < np; i++ {
 		size := 0
-		switch rapid.IntRange(0, 5).Draw(rt, "sizeclass") {
+		switch rapid.IntRange(0, 6).Draw(rt, "sizeclass") {
+		case 6:
+			// large: the forwarded copy is one write of tens of kilobytes on the broker's side (and spans 16-bit length
+			// fields of the WebSocket framing in both directions)
+			size = rapid.SampledFrom([]int{16300, 32700, 32800, 40000, 65500, 66000, 70000}).Draw(rt, "psize") + rapid.IntRange(0, 100).Draw(rt, "pextra")
 		case 0:
 			size = rapid.IntRange(0, 3).Draw(rt, "psize")
 		case 1, 2:
@@ -1200,7 +1204,7 @@ func c39Gen(rt *rapid.T) c39Case {
 }
 
 func TestC39(t *testing.T) {
-	r := evid.New("C39", "rapid: MQTT sessions (v3/v4/v5; CONNECT, SUBSCRIBE to the session's own topic (exact or wildcard, max QoS 0-2), 1-6 PUBLISH QoS 0-2 with payloads 0-5000 bytes, PINGREQ, then the PUBREL/PUBACK/PUBREC/PUBCOMP handshakes for what was sent and received, UNSUBSCRIBE, DISCONNECT) encoded by refmqtt and run against two identically configured real brokers on loopback (pairs with client read buffer 2048 and 64): over listeners.TCP each request group in one write, over listeners.Websocket cut into binary messages at generated boundaries (message sizes from regimes 1, 1-3, 1-16, 1-200, 1-3000, 1-20000 and mixed, optional cuts inside every fixed header / remaining length, optional client-side fragmentation into continuation frames). Oracle: per request group the acknowledgement stream and the forwarded-PUBLISH stream received over WebSocket (binary message payloads concatenated, framed, compared byte for byte, described with refmqtt.Decode) equal those received over TCP, no extra packet, no early close; about a quarter of the cases turn one message into a TEXT message (at a generated position, or directly after a binary message shaped to end exactly where the broker's read buffer ends, optionally preceded by 1-3 empty binary messages), followed by more valid MQTT including two PINGREQs: nothing from that message on may be answered and the connection must end. Non-trivial = >= 1 packet spans two messages and >= 1 message holds two complete packets (text cases: the text message was delivered and judged); distinct by full case")
+	r := evid.New("C39", "rapid: MQTT sessions (v3/v4/v5; CONNECT, SUBSCRIBE to the session's own topic (exact or wildcard, max QoS 0-2), 1-6 PUBLISH QoS 0-2 with payloads 0-5000 bytes (one in seven 16-70 KB), PINGREQ, then the PUBREL/PUBACK/PUBREC/PUBCOMP handshakes for what was sent and received, UNSUBSCRIBE, DISCONNECT) encoded by refmqtt and run against two identically configured real brokers on loopback (pairs with client read buffer 2048 and 64): over listeners.TCP each request group in one write, over listeners.Websocket cut into binary messages at generated boundaries (message sizes from regimes 1, 1-3, 1-16, 1-200, 1-3000, 1-20000 and mixed, optional cuts inside every fixed header / remaining length, optional client-side fragmentation into continuation frames). Oracle: per request group the acknowledgement stream and the forwarded-PUBLISH stream received over WebSocket (binary message payloads concatenated, framed, compared byte for byte, described with refmqtt.Decode) equal those received over TCP, no extra packet, no early close; about a quarter of the cases turn one message into a TEXT message (at a generated position, or directly after a binary message shaped to end exactly where the broker's read buffer ends, optionally preceded by 1-3 empty binary messages), followed by more valid MQTT including two PINGREQs: nothing from that message on may be answered and the connection must end. Non-trivial = >= 1 packet spans two messages and >= 1 message holds two complete packets (text cases: the text message was delivered and judged); distinct by full case")
 	defer r.Finish(t)
 	defer c39StopBrokers()
 	r.Assume("the TCP listener and the kernel's loopback TCP are the reference: what the broker answers over listeners.TCP is taken as what 'it would process over TCP'")
